@@ -93,7 +93,7 @@ def decode(d):
                 target = n["id"]
             elif kind == "href-ancestor":
                 anc = [p["id"] for p in parents if p["tag"] in ("g", "svg")]
-                target = d.choice(anc) if anc else n["id"]
+                target = (anc[-1] if d.bool() else d.choice(anc)) if anc else n["id"]  # (the nearest one half of the time)
             else:
                 others = [m for m, _ in nodes if m["tag"] == "use" and m is not n]
                 if others:
@@ -103,6 +103,14 @@ def decode(d):
                 else:
                     target = n["id"]
             faults.append([n["id"], "href", target, kind])
+            if kind == "href-ancestor" and parents and d.chance(3, 4):
+                # a second use right beside it that reaches the same ancestor: what the first expansion leaves behind
+                # (the set of references being expanded) is what the second one starts from
+                twin = {"tag": "use", "id": "tw%d" % len(faults), "attrs": {}, "children": [], "cls": None, "href": n.get("href")}
+                sibs = parents[-1]["children"]
+                sibs.insert(sibs.index(n) + d.below(2), twin)
+                nodes.append((twin, parents))
+                faults.append([twin["id"], "href", target, kind])
             continue
         if kind == "length":
             attr = d.choice(LENGTH_ATTRS[tag])
